@@ -1,6 +1,7 @@
 package rules
 
 import (
+	"go/constant"
 	"fmt"
 	"go/token"
 	"os"
@@ -100,9 +101,11 @@ func (c *Ctx) checkSolLock() {
 // ---------------------------------------------------------------------------
 // C01.connector-amount
 
-func (c *Ctx) checkConnectorAmount() {
+func (c *Ctx) checkConnectorAmount(rule string) {
 	r := c.R
-	r.Min("C01.connector-amount", 3)
+	if rule == "C01.connector-amount" {
+		r.Min(rule, 3)
+	}
 	cp, err := c.Other("minter-connector", "./...")
 	if err != nil {
 		r.InfraErr = "minter-connector: " + err.Error()
@@ -129,7 +132,7 @@ func (c *Ctx) checkConnectorAmount() {
 					l := cp.Leaves(v, ana.PVOpt{})
 					okF = l.HasField("Deposit.Fee") && !l.HasField("Deposit.Amount")
 				}
-				r.Check(okA && okF, "C01.connector-amount", "claim:TransferToChainEvent", cp.Pos(a.Pos()), "Amount <- Deposit.Amount, Fee <- Deposit.Fee", "the Minter connector does not report the transferred value as Amount and the commanded fee as Fee")
+				r.Check(okA && okF, rule, "claim:TransferToChainEvent", cp.Pos(a.Pos()), "Amount <- Deposit.Amount, Fee <- Deposit.Fee", "the Minter connector does not report the transferred value as Amount and the commanded fee as Fee")
 			case "SendToHubEvent":
 				n++
 				okA := false
@@ -137,7 +140,7 @@ func (c *Ctx) checkConnectorAmount() {
 					l := cp.Leaves(v, ana.PVOpt{})
 					okA = l.HasField("Deposit.Amount") && !l.HasField("Deposit.Fee") && !l.HasOp("Int.Add") && !l.HasOp("Int.Sub")
 				}
-				r.Check(okA, "C01.connector-amount", "claim:SendToHubEvent", cp.Pos(a.Pos()), "Amount <- Deposit.Amount", "the Minter connector does not report the transferred value as the deposit Amount")
+				r.Check(okA, rule, "claim:SendToHubEvent", cp.Pos(a.Pos()), "Amount <- Deposit.Amount", "the Minter connector does not report the transferred value as the deposit Amount")
 			case "Deposit":
 				if a.Comment != "complit" {
 					continue
@@ -152,12 +155,12 @@ func (c *Ctx) checkConnectorAmount() {
 					l := cp.Leaves(v, ana.PVOpt{})
 					okF = l.HasField("Command.Fee")
 				}
-				r.Check(okA && okF, "C01.connector-amount", "deposit", cp.Pos(a.Pos()), "Deposit.Amount <- SendData.Value (the value moved to the multisig), Deposit.Fee <- Command.Fee", "the connector's deposit record is not filled from the transferred value and the command's fee")
+				r.Check(okA && okF, rule, "deposit", cp.Pos(a.Pos()), "Deposit.Amount <- SendData.Value (the value moved to the multisig), Deposit.Fee <- Command.Fee", "the connector's deposit record is not filled from the transferred value and the command's fee")
 			}
 		}
 	}
 	if n == 0 {
-		r.Undecided("C01.connector-amount", "claims", "-", "no claim construction found in the connector")
+		r.Undecided(rule, "claims", "-", "no claim construction found in the connector")
 	}
 }
 
@@ -562,6 +565,57 @@ func checkC20(c *Ctx) {
 		r.Check(summaries[0] == summaries[1], "C20.counted-iff-valid", "same-kinds", "-", "both scanners recognise the same event kinds with the same predicates and counters: "+summaries[0],
 			"the two block scanners disagree on which transactions are bridge events or which counters they advance: resync ["+summaries[0]+"] vs relay ["+summaries[1]+"]")
 	}
+	// the cursor travels by value: a function that is handed the connector context as a value and moves its
+	// counters works on a copy, so it has to hand the context back (every scanner does: it returns it)
+	for _, f := range cp.Funcs {
+		if f.Blocks == nil || cp.L.IsGenerated(f.Pos()) {
+			continue
+		}
+		for _, a := range allocsIn(f) {
+			n := ana.NamedOf(a.Type())
+			if n == nil || n.Obj().Name() != "Context" || structOf(a.Type()) == nil {
+				continue
+			}
+			var muts []ssa.Instruction
+			var loads []*ssa.UnOp
+			for _, ref := range *a.Referrers() {
+				switch x := ref.(type) {
+				case *ssa.UnOp:
+					if x.Op == token.MUL {
+						loads = append(loads, x)
+					}
+				case ssa.CallInstruction:
+					cc := x.Common()
+					if callee := cc.StaticCallee(); callee != nil && len(cc.Args) > 0 && cc.Args[0] == ssa.Value(a) && strings.HasPrefix(callee.Name(), "SetLast") {
+						muts = append(muts, x.(ssa.Instruction))
+					}
+				}
+			}
+			if len(muts) == 0 {
+				continue
+			}
+			// every move of the counters is followed by a use of the context as a whole (it is returned, assigned
+			// or passed on): otherwise the move only ever reaches the copy
+			returned := true
+			mut := muts[0]
+			for _, m := range muts {
+				seen := false
+				for _, l := range loads {
+					if len(*l.Referrers()) == 0 {
+						continue
+					}
+					if (l.Block() == m.Block() && ana.InstrIndex(m) < ana.InstrIndex(l)) || (l.Block() != m.Block() && ana.ReachesWithout(m, l, nil)) {
+						seen = true
+					}
+				}
+				if !seen {
+					returned, mut = false, m
+				}
+			}
+			r.Check(returned, "C20.cursor", "by-value:"+fname(f), cp.InstrPos(mut), "the context whose counters are moved is handed on (returned / assigned) afterwards",
+				fname(f)+" moves the cursor / nonce counters of a copy of the connector context (contexts are passed by value) that is never handed back: the caller goes on with the counters as they were (a rewind is persisted but the relay loop continues from the un-rewound values)")
+		}
+	}
 }
 
 // typeAtom: tx.Type == uint64(<const>)
@@ -841,6 +895,80 @@ func (c *Ctx) checkCursor(cp *ana.Prog, f *ssa.Function) {
 			}
 		})
 		r.Check(okSnap, "C20.cursor", "windows:"+fname(f), cp.Pos(f.Pos()), "block windows are derived from a start snapshot taken before the loop", "the resynchronisation scan derives its block windows from the moving cursor: whole windows of blocks are skipped without being scanned")
+	} else {
+		// the relay loop: its windows are computed from the moving cursor, which is only sound while a pass
+		// never spans more than one window (cap on the distance to the head <= window size)
+		moving := false
+		var window, capv int64 = -1, -1
+		ana.Instrs(f, func(in ssa.Instruction) {
+			switch x := in.(type) {
+			case *ssa.Call:
+				d, _ := ana.Describe(&x.Call)
+				if d.Name != "Blocks" || d.Recv == "" {
+					return
+				}
+				for _, a := range x.Call.Args[1:] {
+					if !strings.Contains(cp.Expr(a, 0), "LastCheckedMinterBlock(") || x.Block() == f.Blocks[0] {
+						continue
+					}
+					for _, y := range callsIn(cp, a) {
+						if y.Block() != f.Blocks[0] {
+							moving = true
+						}
+					}
+					// the window size: the constant the window index is multiplied with
+					seen := map[ssa.Value]bool{}
+					var walk func(v ssa.Value, d int)
+					walk = func(v ssa.Value, d int) {
+						if v == nil || seen[v] || d > 10 {
+							return
+						}
+						seen[v] = true
+						switch z := v.(type) {
+						case *ssa.BinOp:
+							if z.Op == token.MUL {
+								for _, o := range []ssa.Value{z.X, z.Y} {
+									if k, ok := o.(*ssa.Const); ok && k.Value != nil {
+										if n, ok := constant.Int64Val(constant.ToInt(k.Value)); ok && n > window {
+											window = n
+										}
+									}
+								}
+							}
+							walk(z.X, d+1)
+							walk(z.Y, d+1)
+						case *ssa.Phi:
+							for _, e := range z.Edges {
+								walk(e, d+1)
+							}
+						case *ssa.Convert:
+							walk(z.X, d+1)
+						}
+					}
+					walk(a, 0)
+				}
+			case *ssa.If:
+				bo, ok := x.Cond.(*ssa.BinOp)
+				if !ok || (bo.Op != token.GTR && bo.Op != token.GEQ) {
+					return
+				}
+				k, ok := bo.Y.(*ssa.Const)
+				if !ok || k.Value == nil || !strings.Contains(cp.Expr(bo.X, 0), "LastCheckedMinterBlock(") || !strings.Contains(cp.Expr(bo.X, 0), "-") {
+					return
+				}
+				if n, ok := constant.Int64Val(constant.ToInt(k.Value)); ok {
+					capv = n
+				}
+			}
+		})
+		switch {
+		case !moving:
+			r.Ok("C20.cursor", "windows:"+fname(f), cp.Pos(f.Pos()), "block windows do not depend on the moving cursor")
+		case window > 0 && capv > 0 && capv <= window:
+			r.Ok("C20.cursor", "windows:"+fname(f), cp.Pos(f.Pos()), sprintf("a pass advances at most %d blocks and a window holds %d: one window per pass, so windows computed from the moving cursor skip nothing", capv, window))
+		default:
+			r.Bad("C20.cursor", "windows:"+fname(f), cp.Pos(f.Pos()), sprintf("the relay loop computes its block windows from the moving cursor while a pass may span more than one window (cap %d, window %d): the second window starts beyond blocks that were never scanned, their events are never counted and every later nonce is too low", capv, window))
+		}
 	}
 }
 
